@@ -83,14 +83,31 @@ fn build_fixture(w: &mut Worker, consistent: bool) -> Fixture {
         ),
         &[5],
     );
+    // `dx` is a sibling of `d1`, listed BEFORE it, trusted for "dx/*" only; it nevertheless lists every
+    // name below d1/ with the digest of that name's twin. Its entries are not authorised entries: reads
+    // of d1/... must keep using what d1 (or d2) signed.
+    let mut dx_entries: Vec<(String, J)> = Vec::new();
+    for depth in 1..3 {
+        for size in SIZES {
+            for padded in [false, true] {
+                let n = tname(size, depth, false, padded);
+                let twin = tname(size, depth, true, false);
+                dx_entries.push((n, entry(&twin, size, false).1));
+            }
+        }
+    }
+    let dx = sign_with(&targets_signed(1, FAR, dx_entries, None), &[7]);
     let tg = sign_with(
         &targets_signed(
             1,
             FAR,
             per_depth[0].clone(),
             Some(delegations(
-                &[5],
-                vec![delegated_role_entry("d1", &[5], 1, &Paths::Patterns(vec!["d1/*".into()]), false)],
+                &[7, 5],
+                vec![
+                    delegated_role_entry("dx", &[7], 1, &Paths::Patterns(vec!["dx/*".into()]), false),
+                    delegated_role_entry("d1", &[5], 1, &Paths::Patterns(vec!["d1/*".into()]), false),
+                ],
             )),
         ),
         &keys.targets.keys,
@@ -98,6 +115,7 @@ fn build_fixture(w: &mut Worker, consistent: bool) -> Fixture {
     let style = crate::json::Style::Compact;
     files.insert(meta_path(consistent, 1, "d2"), crate::json::render(&d2, style));
     files.insert(meta_path(consistent, 1, "d1"), crate::json::render(&d1, style));
+    files.insert(meta_path(consistent, 1, "dx"), crate::json::render(&dx, style));
     files.insert(meta_path(consistent, 1, "targets"), crate::json::render(&tg, style));
     let snap = sign_with(
         &snapshot_signed(
@@ -107,6 +125,7 @@ fn build_fixture(w: &mut Worker, consistent: bool) -> Fixture {
                 ("targets.json".into(), metafile(1, None, None)),
                 ("d1.json".into(), metafile(1, None, None)),
                 ("d2.json".into(), metafile(1, None, None)),
+                ("dx.json".into(), metafile(1, None, None)),
             ],
         ),
         &keys.snapshot.keys,
